@@ -29,7 +29,7 @@ def mentions_app(v, path):
 def r09_1(ctx):
     out = []
     m = ctx.cachedir_methods()
-    entries = [(p, ctx.key_of(p)) for p in LOOKUPS] + [('cachedir.get', m['get']), ('cachedir.touch', m['touch'])]
+    entries = [(p, ctx.helper(p) if p in ctx.HELPERS else ctx.key_of(p)) for p in LOOKUPS] + [('cachedir.get', m['get']), ('cachedir.touch', m['touch'])]
     for name, k in entries:
         eff = ctx.cg.effects(k) & (prims.FS_CLASSES | {'UNCLASSIFIED'})
         bad = eff - ALLOWED
@@ -40,7 +40,7 @@ def r09_1(ctx):
 
 def r09_2(ctx):
     out = []
-    k = ctx.key_of('raw_cache::ensure_file_touched')
+    k = ctx.helper('raw_cache::ensure_file_touched')
     q = ctx.explore(k)
     E = q.prim_edges('meta_times_h')
     ok = bool(E)
@@ -58,7 +58,7 @@ def r09_2(ctx):
             ok = False
             why.append('atime operand %s is neither now nor this file\'s own mtime' % show(at, 4)[:100])
     out.append(inst('R09.2', 'handle re-touch', ok, 'set_file_handle_times(file, Some(mtime of the same file | now), None)' if ok else '; '.join(why)))
-    k = ctx.key_of('raw_cache::touch')
+    k = ctx.helper('raw_cache::touch')
     q = ctx.explore(k)
     E = q.prim_edges({'meta_atime', 'meta_times', 'meta_times_h'})
     ok = bool(E) and all(cls_of(q.E[e][2]) == 'meta_atime' and mentions_app(arg_role(q.E[e][2], 'atime'), 'filetime::FileTime::now') for e in E)
